@@ -139,6 +139,30 @@ Theorem C17_other_nodes_as_in_sem : forall implements types ops tyof e,
 Proof. exact explicit_form_children. Qed.
 Print Assumptions C17_other_nodes_as_in_sem.
 
+(* after PatchOperators the compiler never sees a binary node whose operand types match a candidate *)
+Theorem C17_no_occurrence_remains : forall implements types ops tyof e,
+  exists_node (is_overloaded implements types ops tyof) (explicit_form implements types ops tyof e) = false.
+Proof. exact no_occurrence_remains. Qed.
+Print Assumptions C17_no_occurrence_remains.
+
+(* ---------------- expr.Compile with user visitors (expr.Patch): check, PatchOperators, visitors, check *)
+(* FULL STATEMENT (false of the pinned tree): no binary node that the second check types as an
+   overload reaches the compiler.  Refuted: a visitor's replacement can make operand types match
+   only afterwards (`Y + B` with Y renamed to A), and PatchOperators is not run again *)
+Definition C17_visitors_full_statement : Prop := visitors_full_statement.
+
+Theorem C17_visitors_full_statement_refuted : ~ C17_visitors_full_statement.
+Proof. exact visitors_full_statement_refuted. Qed.
+Print Assumptions C17_visitors_full_statement_refuted.
+
+(* carve-out: no visitor (finding C17-visitor-after-operators otherwise) *)
+Theorem C17_visitors_partial : forall implements types ops tyof1 n e t,
+  config_check types ops = true -> esize e <= n ->
+  tree_for_compiler implements types ops tyof1 (fun x => x) n e = Some t ->
+  exists_node (is_overloaded implements types ops tyof1) t = false.
+Proof. exact visitors_partial. Qed.
+Print Assumptions C17_visitors_partial.
+
 (* ---------------- a mapping that names a missing or ill-shaped function is rejected *)
 Theorem C17_config_rejects : forall types ops op fns fn,
   In (op, fns) ops -> In fn fns -> bad_target types fn -> config_check types ops = false.
